@@ -13,6 +13,7 @@ import ast
 import copy
 import glob
 import importlib
+import inspect
 import io
 import os
 import random
@@ -62,7 +63,7 @@ def required_counters(tier):
         "modules.without_import": 1,
         "dynamic.runs": 100,
         "dynamic.tracebacks_compared": 20,
-        "generated.modules": 300, "cells.through_one_transformer": 100, "compiled_code_decorator_counts_compared": 800, "dynamic.reruns_after_uninstall": 20, "ipython.cells": 40,
+        "generated.modules": 300, "cells.through_one_transformer": 100, "compiled_code_decorator_counts_compared": 800, "dynamic.reruns_after_uninstall": 20, "ipython.cells": 40, "deep_modules.validated": 40,
     }
 
 
@@ -123,6 +124,26 @@ def code_table(code):
     return sorted(out)
 
 
+def safe_dump(tree):
+    """ast.dump(include_attributes=True); for trees nested too deeply for its recursion, an equivalent flat rendering:
+    every node in `ast.walk` order with its type, position attributes and all non-node field values"""
+    try:
+        return ast.dump(tree, include_attributes=True)
+    except RecursionError:
+        out = []
+        for n in ast.walk(tree):
+            fields = []
+            for f, v in ast.iter_fields(n):
+                if isinstance(v, ast.AST):
+                    fields.append((f, "<node>"))
+                elif isinstance(v, list):
+                    fields.append((f, [("<node>" if isinstance(x, ast.AST) else repr(x)) for x in v]))
+                else:
+                    fields.append((f, repr(v)))
+            out.append((type(n).__name__, tuple(getattr(n, a, None) for a in ("lineno", "col_offset", "end_lineno", "end_col_offset")), fields))
+        return repr(out)
+
+
 def count_jaxtyped_loads(code):
     """number of `.jaxtyped` attribute loads in a code object tree: each added decorator contributes one.
     Observed on the loader's OUTPUT, so it does not depend on seeing the transformed tree."""
@@ -169,13 +190,20 @@ def validate(rec, source, path, tc_string, label):
     except (SyntaxError, ValueError, RecursionError, MemoryError, OverflowError):
         rec.count("corpus.original_does_not_compile")
         return None
-    orig_dump = ast.dump(orig_tree, include_attributes=True)
+    orig_dump = safe_dump(orig_tree)
     tc = H.Typechecker(tc_string)
     loader = H._JaxtypingLoader("jtv_c10_mod", path, typechecker=tc)
     case = {"path": label, "typechecker": tc_string}
     with Capture() as cap:
+        harness_limit = sys.getrecursionlimit()
         try:
-            new_code = loader.source_to_code(source.encode("utf-8") if isinstance(source, str) else source, path)
+            # the loader runs with the interpreter's DEFAULT recursion limit (the harness raises it for its own
+            # tree dumps; a user's import does not)
+            sys.setrecursionlimit(1000 + len(inspect.stack(0)))
+            try:
+                new_code = loader.source_to_code(source.encode("utf-8") if isinstance(source, str) else source, path)
+            finally:
+                sys.setrecursionlimit(harness_limit)
         except BaseException as e:  # noqa
             rec.violation("compile", case, f"{label}: original compiles but the hooked compilation raised {type(e).__name__}: {str(e)[:200]}", mechanism="transformed-does-not-compile-" + type(e).__name__)
             return False
@@ -274,7 +302,7 @@ def validate(rec, source, path, tc_string, label):
     if bad:
         rec.violation("additions", case, f"{label}: " + "; ".join(bad[:4]), mechanism="addition-malformed-or-misplaced:" + bad[0].split(":")[-1].strip()[:40])
         return False
-    new_dump = ast.dump(T2, include_attributes=True)
+    new_dump = safe_dump(T2)
     if new_dump != orig_dump:
         # locate first difference for the witness
         i = next((j for j, (a, b) in enumerate(zip(orig_dump, new_dump)) if a != b), min(len(orig_dump), len(new_dump)))
@@ -488,7 +516,7 @@ def dynamic(rec, rng, scratch, idx):
 
 def run_shard(rec, seed, shard, tier):
     warnings.filterwarnings("ignore")
-    sys.setrecursionlimit(5000)
+    sys.setrecursionlimit(30000)
     files = corpus_files()
     rec.info["corpus_size"] = len(files) if shard["i"] == 0 else 0
     rng = random.Random(f"{seed}/C10/corpus")
@@ -516,6 +544,31 @@ def run_shard(rec, seed, shard, tier):
             rec.count("generated.not_compiling_skipped")  # precondition of the property: the original compiles
         else:
             rec.count("generated.modules")
+    # machine-generated shapes: very long expressions and statement ladders that compile fine but are nested deeper
+    # than a recursive tree walk can go
+    g = random.Random(f"{seed}/C10/{shard['i']}/deep")
+    for kind in ("sum", "ladder", "literal", "chain", "ladder-with-defs"):
+        n = g.randrange(520, 1100)
+        head = "def before(x: int) -> int:\n    return x\n\nclass K:\n    def m(self):\n        return 1\n\n"
+        tail = "\ndef after(y):\n    def inner(z):\n        return z\n    return inner(y)\n"
+        if kind == "sum":
+            body = "BIG = " + " + ".join(["1"] * n) + "\n"
+        elif kind == "ladder":
+            body = "x = 0\nif x == 1:\n    pass\n" + "".join(f"elif x == {i}:\n    pass\n" for i in range(2, n // 2))
+        elif kind == "ladder-with-defs":
+            body = "x = 0\nif x == 1:\n    pass\n" + "".join((f"elif x == {i}:\n    def f_{i}(a):\n        return a\n" if i % 50 == 0 else f"elif x == {i}:\n    pass\n") for i in range(2, n // 2))
+        elif kind == "literal":
+            d = n // 4
+            body = "NEST = " + "[" * d + "0" + "]" * d + "\n"
+        else:
+            body = "class A:\n    b = None\nA.b = A\nC = A" + ".b" * (n // 2) + "\n"
+        src = head + body + tail
+        r = validate(rec, src, f"<deep {kind} {n}>", tcs[0], f"deep:{kind}:{n}")
+        rec.case(("deep", kind, n), nontrivial=bool(r))
+        if r is None:
+            rec.count("deep_modules.not_compiling_skipped")
+        else:
+            rec.count("deep_modules.validated")
     for k in range(max(2, GENERATED[tier] // 8)):
         g = random.Random(f"{seed}/C10/{shard['i']}/cells{k}")
         validate_reused_transformer(rec, [GM.gen_static_module(g) for _ in range(3)], tcs[k % 2])
